@@ -286,9 +286,9 @@ static void check_c16(const Spec& sp, const std::vector<Tok>& toks, int maxlen, 
             auto rep = [&](const std::string& key, const std::string& what) { V.add(key, what + "; exec " + opsdesc + "at prefix " + std::to_string(k) + " of " + spec_str(sp), rj); };
             if (re != ref::Err::OK) {
                 st.eval_fail++;
-                if (iok) { rep(std::string("exec-outcome:") + pk + ";ref=" + ref::err_name(re) + ";impl=OK", std::string("exec must fail with ") + ref::err_name(re) + " but succeeded"); continue; }
+                if (iok) { rep(std::string("exec-outcome:sv=") + impl::sv_name(sp.sv) + ";failing-op=" + (which < texts.size() ? texts[which] : std::string("-")) + ";ref=" + ref::err_name(re) + ";impl=OK", std::string("exec must fail with ") + ref::err_name(re) + " but succeeded"); continue; }
                 // no transaction in these sessions: the error of a Schnorr check is unspecified (BaseSignatureChecker sets none)
-                if (ierr != ref::err_name(re) && re != ref::Err::SCHNORR_SIG) { rep(std::string("exec-outcome:") + pk + ";ref=" + ref::err_name(re) + ";impl=" + ierr, std::string("exec must fail with ") + ref::err_name(re) + " but reports " + ierr); }
+                if (ierr != ref::err_name(re) && re != ref::Err::SCHNORR_SIG) { rep(std::string("exec-outcome:sv=") + impl::sv_name(sp.sv) + ";failing-op=" + (which < texts.size() ? texts[which] : std::string("-")) + ";ref=" + ref::err_name(re) + ";impl=" + ierr, std::string("exec must fail with ") + ref::err_name(re) + " but reports " + ierr); }
                 // the operations after the failing one must have no effect (the script would have stopped there): the state must be the
                 // one reached by exec of the list cut after the failing operation (differential oracle; independent of how much of the
                 // failing operation itself was applied before it failed)
@@ -307,7 +307,7 @@ static void check_c16(const Spec& sp, const std::vector<Tok>& toks, int maxlen, 
                 }
                 continue;
             }
-            if (!iok) { rep(std::string("exec-outcome:") + pk + ";ref=OK;impl=" + ierr, "exec must succeed but reports " + ierr); continue; }
+            if (!iok) { rep(std::string("exec-outcome:sv=") + impl::sv_name(sp.sv) + ";failing-op=" + (which < texts.size() ? texts[which] : std::string("-")) + ";ref=OK;impl=" + ierr, "exec must succeed but reports " + ierr); continue; }
             Dump after = dump(S);
             const char* kind = nullptr;
             if (S.s.stack() != R.stack) kind = "stack"; else if (S.s.alt() != R.alt) kind = "altstack";
